@@ -392,10 +392,12 @@ func c15TrimAndClamp(c *Ctx) {
 	c.fn(entry)
 	x := w.expander(entry)
 	var lit *ast.CompositeLit
+	var allLits []*ast.CompositeLit
 	walkNoLit(entry.Body, func(q ast.Node) bool {
 		if cl, ok := q.(*ast.CompositeLit); ok {
 			if tv, ok := info.Types[cl]; ok && typeStr(tv.Type) == "markup.ParseResult" {
 				lit = cl
+				allLits = append(allLits, cl)
 			}
 		}
 		return true
@@ -432,6 +434,22 @@ func c15TrimAndClamp(c *Ctx) {
 		return
 	}
 	c.fn(clamp)
+	// every other result built in the function (an early return, a fast path) is clamped by the same function, or has no attributes
+	for k, other := range allLits {
+		if other == lit {
+			continue
+		}
+		oa := litField(other, "Attributes")
+		okOther := oa == nil || isNilExpr(info, oa)
+		if oc, isCall := unparen(oa).(*ast.CallExpr); oa != nil && isCall {
+			if callee := calleeOf(info, oc); callee != nil && w.byObj[callee] == clamp {
+				okOther = true
+			}
+		}
+		if !okOther {
+			c.ob("C15.R5", entry.Name+"/clamped-result#"+itoa(k+1), w.Pos(other.Pos()), false, "another result of the function carries the attribute list "+shorten(x.str(oa), 80)+", which is not the result of "+clamp.Name+": on that path an attribute (the implicit character attribute is measured on the source line) can lie outside the returned text")
+		}
+	}
 	// … and stays that: a result kept in a local must not be written between the literal and the return
 	modified := ""
 	{
